@@ -15,3 +15,9 @@
 ; mantstop_mono: base m = k ; step
 (push) (assert (not (mantstop_mono d o k k))) (check-sat) (pop)
 (push) (assert (<= 0 k)) (assert (<= k m)) (assert (mantstop_mono d o k m)) (assert (unfold_mantstop d o (+ m 1))) (assert (unfold_mantcount d o (+ m 1))) (assert (not (mantstop_mono d o k (+ m 1)))) (check-sat) (pop)
+; mantval_nonneg
+(push) (assert (<= k 0)) (assert (unfold_mantval d o k)) (assert (unfold_fracd d o k)) (assert (not (mantval_nonneg d o k))) (check-sat) (pop)
+(push) (assert (>= k 0)) (assert (mantval_nonneg d o k)) (assert (unfold_mantval d o (+ k 1))) (assert (unfold_fracd d o (+ k 1))) (assert (not (mantval_nonneg d o (+ k 1)))) (check-sat) (pop)
+; mantval_stable
+(push) (assert (not (mantval_stable d o k k))) (check-sat) (pop)
+(push) (assert (<= 0 k)) (assert (<= k m)) (assert (mantval_stable d o k m)) (assert (mantstop_mono d o k m)) (assert (unfold_mantstop d o (+ m 1))) (assert (unfold_mantval d o (+ m 1))) (assert (not (mantval_stable d o k (+ m 1)))) (check-sat) (pop)
